@@ -75,12 +75,12 @@ func init() {
 		if err != nil {
 			return "", err
 		}
-		if hugeAfterScale(string(t), 1000000) {
-			return okStr("huge"), nil
-		}
 		var f backend.Frequency
 		if e := json.Unmarshal(t, &f); e != nil {
 			return resERR, nil
+		}
+		if hugeAfterScale(strings.TrimSpace(string(t)), 1000000) {
+			return okStr("huge"), nil
 		}
 		return okStr(strconv.FormatInt(int64(f), 10)), nil
 	}
@@ -89,12 +89,12 @@ func init() {
 		if err != nil {
 			return "", err
 		}
-		if hugeAfterScale(string(t), 100) {
-			return okStr("huge"), nil
-		}
 		var f backend.Percentage
 		if e := json.Unmarshal(t, &f); e != nil {
 			return resERR, nil
+		}
+		if hugeAfterScale(strings.TrimSpace(string(t)), 100) {
+			return okStr("huge"), nil
 		}
 		return okStr(strconv.FormatInt(int64(f), 10)), nil
 	}
